@@ -65,6 +65,14 @@ CHECKS = {
                 text="every token string up to length 4 (5; 5 (6) over the core alphabet), every byte string of length <= 2 and every byte embedded at every position of three valid sentences, in both grammars: no panic, termination, and every string the generous reference recogniser rejects is rejected; at the client API never a silently successful call",
                 note="strings longer than the token bound are only covered by directed pumped sentences up to 4 KB; the recogniser is deliberately generous (it only rejects unknown characters, incomplete or unbalanced sentences, trailing/juxtaposed tokens)",
                 ref="DESIGN.md 3/C09"),
+    "C10": dict(engine="E2", technique=E2,
+                text="every attribute-value tree over the boundary leaves up to depth 2 (3) written with PutItem comes back structurally equal through GetItem, Query, Scan, BatchGetItem and after an unrelated UpdateItem, in both SDK clients",
+                note="boundary leaves of every type; lists and maps with 0-2 children; BatchGetItem only exists in the v2 client; the v2 empty-container finding is attributed by its defect model",
+                ref="DESIGN.md 3/C10"),
+    "C12": dict(engine="E2", technique=E2,
+                text="every ordered pair of numerals of the alphabet under comparison, membership, arithmetic, set operations and as hash/range key, every 3-subset of number sort keys and pair of binary sort keys for ordering, and an untouched 38-digit attribute across every arithmetic update, judged by exact decimal arithmetic",
+                note="24 (36) numerals chosen to separate text, double and decimal semantics; the float64 and key-text findings are attributed only when the answer equals that defect model's prediction",
+                ref="DESIGN.md 3/C12"),
 }
 
 PENDING = {}
